@@ -55,3 +55,5 @@ func c15Merge(s *generator.SnippetWriter, r io.Reader, o *generator.SnippetWrite
 func c09boilerplate(path, buildTag, genBy string) ([]byte, error) {
 	return gengo.GoBoilerplate(path, buildTag, genBy)
 }
+
+func c09fileType() *generator.DefaultFileType { return generator.NewGoFile() }
